@@ -337,9 +337,15 @@ func checkC14(c C14Case) h.Outcome {
 		}
 	}
 	alg, _ := pctDecode(saml["SigAlg"][0])
-	if alg != wantAlg {
-		o.Violation = h.V("sigalg-differs", "SigAlg %q, configured %q", alg, wantAlg)
-		return o
+	if algFits(c.SP.SignAlg, ec) {
+		if alg != wantAlg {
+			o.Violation = h.V("sigalg-differs", "SigAlg %q, configured %q", alg, wantAlg)
+			return o
+		}
+	} else {
+		// misconfigured algorithm: SigAlg must still name the algorithm actually used — decided below by
+		// verifying the signature under the algorithm SigAlg names
+		o.Classes = append(o.Classes, "alg:misconfigured")
 	}
 	signedStr := "SAMLRequest=" + saml["SAMLRequest"][0]
 	if c.Relay != "" {
